@@ -16,7 +16,7 @@ SOFT = {"quick": 70, "thorough": 560}
 RULE = ("per base object (all seven types plus Vector, cycled) one alternative exact representation of the same set (other "
         "defining points, direction / normal scaled by +-k, two-/three-point forms, swapped endpoints, vertex rotations / "
         "reflections / duplicates / shuffles, face permutations and re-orientations, int / float / Fraction coordinates, "
-        "move-and-back) and one near-miss different set (defining point displaced by a lattice step, tilted direction, one "
+        "move-and-back, float-noise copies a few ulps off) and one near-miss different set (defining point displaced by a lattice step, tilted direction, one "
         "vertex changed); checked: ==, != both ways, hash, set deduplication, reflexivity, foreign-type comparison; "
         "distinct by content hash")
 KINDS = gen.KINDS + ("VEC",)
